@@ -44,17 +44,21 @@ structure Facts where
   exitCancels : Bool     -- the process watcher cancels the transport context when the child exits
   oneWait : Bool         -- Cmd.Wait has a single call site
   startGuarded : Bool    -- the asynchronously started listening stream is refused once close() ran
+  closeAny : Bool        -- the client's Close() closes the transport whatever the client's state (no guard but `transport != nil`)
   deriving DecidableEq, Repr
 
 /-- Every fact present (the good corner of the family; witnesses switch single facts off). -/
 def Facts.allGood : Facts :=
-  ⟨true, true, true, true, true, true, true, true, true, true, true, true, true⟩
+  ⟨true, true, true, true, true, true, true, true, true, true, true, true, true, true⟩
 
 /-- Run-time configuration of a scenario. -/
 structure Cfg where
   t : Transport
   handlers : Bool := false   -- Streamable SSE answers: a notification handler is registered (the reader goes on after the result, until the stream ends)
   getSSE : Bool := false     -- Streamable: Initialize starts the listening GET stream asynchronously
+  connected : Bool := true   -- the client's state when Close() is called: false = Disconnected, which is the state before the
+                             -- first use, but also after every failed handshake and while a handshake is in flight — when the
+                             -- transport is already up (legacy SSE: event stream and reader; stdio: child, reader, watcher)
   deriving DecidableEq, Repr
 
 inductive Res | ok | err | nilResult | crash
@@ -198,6 +202,7 @@ def step (f : Facts) (cfg : Cfg) (s : St) : Ev → Option St
   | .timeout c => some (setCall s c { (s.calls c) with timedOut := true })
   | .closeBegin =>
     if s.closing then none
+    else if !(f.closeAny || cfg.connected) then none   -- Close() returns at its state guard: nothing is closed
     else match cfg.t with
       | .sse => some { s with closing := true, streamDown := true }
       | .stdio => some { s with closing := true, tctx := true, child := false, streamDown := true,
@@ -340,6 +345,7 @@ structure Tables where
   bodies : List BodySite
   selects : List SelectSite
   chanClosers : List (Client × Text)  -- functions that `close` a pending channel (made for / ranged over a pending table)
+  closeUnguarded : List Client        -- clients whose public `Close()` reaches `transport.close()` under no condition but `transport != nil`
   waitSites : List Text               -- functions of the stdio transport that call `Cmd.Wait`
   readerCloses : Bool                 -- `readSSE` ends with an unconditional `t.close()`
   watcherCancels : Bool               -- `processWatcher` calls `t.cancel()`
@@ -408,11 +414,36 @@ def factsOf (tb : Tables) (t : Transport) : Facts :=
     endCloses := t != .sse || tb.readerCloses,
     exitCancels := t != .stdio || tb.watcherCancels,
     oneWait := t != .stdio || tb.waitSites.length ≤ 1,
-    startGuarded := !t.http || tb.startGuarded }
+    startGuarded := !t.http || tb.startGuarded,
+    closeAny := tb.closeUnguarded.any (· = cl) }
+
+/-! ### Server-issued requests (`Server.SendRequest / ListRoots` of the three servers)
+
+A request the server sends to its peer waits exactly like a legacy-SSE client call: an entry (with a channel) in a pending
+table, the answer routed to it by whoever reads the peer's messages, and the exits {answer, caller context, timer, the
+write of the request failed / its queue was full}.  The model is the same family at `srvCfg`; the write failure is the
+call's `connErr`.  The only regenerated fact is whether every insert's delete is deferred before any return. -/
+
+inductive Server | streamable | sse | stdio
+  deriving DecidableEq, Repr
+
+structure SrvInsertSite where
+  server : Server
+  fn : Text
+  table : Text
+  deleteDeferred : Bool   -- a top-level `defer` that deletes the same key follows the insert with no `return` in between
+  deriving DecidableEq, Repr
+
+def srvCfg : Cfg := { t := .sse }
+
+def srvFacts (ins : List SrvInsertSite) (sv : Server) : Facts :=
+  let xs := ins.filter (fun x => x.server = sv)
+  { Facts.allGood with hasTable := true, deleteDeferred := !xs.isEmpty && xs.all (·.deleteDeferred) }
 
 /-- The region of the family in which the property holds for transport `t`. -/
 def Facts.goodFor (f : Facts) (t : Transport) : Bool :=
   f.selCtx && f.bodyClosed && f.oneCloser && f.deleteDeferred && f.startGuarded && f.endCloses && f.exitCancels && f.oneWait &&
+  f.closeAny &&
   (!t.shared || (f.hasTable && f.selClosed && f.recvOk)) &&
   (t != .stdio || (f.selTctx && f.selTimeout))
 
